@@ -92,7 +92,7 @@ func boundFor(h hist.History, tierBound int) int {
 	nb := 0
 	for _, c := range h.Callers {
 		for _, k := range c {
-			if k == hist.SpsB || k == hist.FitB || k == hist.SpsBErr || k == hist.SpsC || k == hist.SpsBDelay {
+			if k == hist.SpsB || k == hist.FitB || k == hist.SpsBErr || k == hist.SpsC || k == hist.SpsBDelay || k == hist.Fit0 {
 				nb++
 			}
 		}
@@ -360,7 +360,7 @@ func assignment(hs []hist.History, n int) [][]int {
 		}
 		for _, cl := range h.Callers {
 			for _, k := range cl {
-				if k == hist.SpsB || k == hist.FitB || k == hist.SpsBErr || k == hist.SpsC || k == hist.SpsBDelay {
+				if k == hist.SpsB || k == hist.FitB || k == hist.SpsBErr || k == hist.SpsC || k == hist.SpsBDelay || k == hist.Fit0 {
 					c += 4
 				}
 			}
